@@ -319,8 +319,15 @@ func genModule(pkgs []*packages.Package, m *Module, byName map[string]*Module, o
 			}
 		}
 		for _, fn := range se.ExportedFuncs(target.PkgPath) {
-			if _, has := m.Spec.Funcs[fn.Name()]; has || fn.Name() == "_deploy" {
+			if fs, has := m.Spec.Funcs[fn.Name()]; (has && !fs.InputOnly) || fn.Name() == "_deploy" {
 				continue
+			}
+			if fs, has := m.Spec.Funcs[fn.Name()]; has && fs.InputOnly {
+				for _, c := range fs.Clauses {
+					if c.Kind == "requires" {
+						rr.Inputs = append(rr.Inputs, "input assumption of "+m.Name+": "+target.Types.Name()+"."+fn.Name()+" (invariant sweep): "+c.Text)
+					}
+				}
 			}
 			if opt.OnlyFunc != "" && fn.Name() != opt.OnlyFunc {
 				continue
